@@ -232,7 +232,7 @@ def _replay_all(rep, cfg, behs, budget, rng, terminal_api=False, jit=True):
         return
     rp = l0.Replayer(cfg, terminal_api=terminal_api, jit=jit)
     for beh in behs:
-        res, events = rp.execute(beh, timeout_s=30)
+        res, events = rp.execute(beh, timeout_s=240)
         diffs = rp.compare(beh, res, events)
         rep.traces += 1
         ident = (cfg["_name"], terminal_api, jit, repr(beh["hist"]))
@@ -266,7 +266,7 @@ def _probe_every_step_hang(rep, cfg):
     while t + eps < t1:
         hist.append({"ev": "attempt", "from": {"t": t}, "used": dt0, "ep": [1, 1]})
         t += dt0
-    res, events = rp.execute({"hist": hist}, timeout_s=8)
+    res, events = rp.execute({"hist": hist}, timeout_s=120)
     rep.traces += 1
     rep.add_case((cfg["_name"], "landing-within-eps-before-t1"))
     if res is None:
